@@ -215,7 +215,11 @@ def explore(harness, cfg, known=(), workers=None, deadline_s=None, max_paths=Non
             info["exhaustive"] = not total.errors
     finally:
         procs = list((getattr(ex, "_processes", None) or {}).values())
-        ex.shutdown(wait=False, cancel_futures=True)
+        if os.environ.get("VERIF_GRACEFUL"):
+            ex.shutdown(wait=True, cancel_futures=True)  # let workers exit normally (coverage measurement)
+            procs = []
+        else:
+            ex.shutdown(wait=False, cancel_futures=True)
         for pr in procs:
             try:
                 pr.terminate()
